@@ -149,6 +149,25 @@ def construct(n, kind, vals):
         return C(array.array("d", [float(v) for v in vals]))
     if kind == "fact":
         return dc.FieldVector([num(v) for v in vals])
+    if kind == "factgen":                       # the factory accepts any iterable (list(values))
+        return dc.FieldVector(num(v) for v in vals)
+    if kind == "npcol":                         # a column of a two-dimensional array: one-dimensional, not contiguous
+        M = np.full((len(vals), 3), 777.0)
+        M[:, 1] = [float(v) for v in vals]
+        return C(M[:, 1])
+    if kind == "memview":
+        return C(memoryview(array.array("d", [float(v) for v in vals])))
+    # rejected buffers: other element types, not one-dimensional
+    if kind == "npint":
+        return C(np.array([int(v) for v in vals], dtype=np.int64))
+    if kind == "npf32":
+        return C(np.array([float(v) for v in vals], dtype=np.float32))
+    if kind == "np2d":
+        return C(np.array([[float(v) for v in vals]] * 2, dtype=np.float64))
+    if kind == "bytearray":
+        return C(bytearray(8 * len(vals)))
+    if kind == "arrayi":
+        return C(array.array("i", [int(v) for v in vals]))
     raise ValueError("bad kind " + kind)
 
 
@@ -170,6 +189,16 @@ double c20npv(pybind11::array_t< T >& a, int op, int i, double x)
     case 7: return v.infinity_norm();
     case 8: v -= x; return 0;
     case 9: v /= x; return 0;
+    case 10: { const Dune::Python::NumPyVector< T > &cv = v; return cv[ i ]; }          // const access path
+    case 11: { const Dune::Python::NumPyVector< T > &cv = v; return v.vec_access( i ) + cv.vec_access( i ) - cv[ i ]; }
+    case 12: {                                   // NumPyVector( size ) owning a new array, conversion to array_t, coefficients()
+      Dune::Python::NumPyVector< T > w( v.size() );
+      for( std::size_t k = 0; k < v.size(); ++k ) w[ k ] = v[ k ];
+      pybind11::array_t< T > arr( w );
+      if( std::size_t( w.coefficients().size() ) != v.size() || std::size_t( arr.size() ) != w.vec_size() ) return -12345;
+      w[ i ] += 1;                               // the new array is independent of the wrapped one
+      return arr.at( i ) - 1;
+    }
   }
   return -1;
 }
@@ -189,9 +218,14 @@ def npv_step(R, t):
         a = np.array([float(v) for v in qlist(t[3])], dtype=np.float64)
         R.append(a)
         return objstr(a)
+    if op == "bad2d":
+        return "s:" + fr(npv(np.zeros((2, 2)), 0))
     x = R[int(t[1])]
     if op == "slice":
         return result(R, x[slice(optz(t[2]), optz(t[3]), optz(t[4]))])
+    if op == "getc": return "s:" + fr(npv(x, 10, int(t[2])))
+    if op == "getva": return "s:" + fr(npv(x, 11, int(t[2])))
+    if op == "getcopy": return "s:" + fr(npv(x, 12, int(t[2])))
     if op == "len": return "i:%d" % int(npv(x, 0))
     if op == "get": return "s:" + fr(npv(x, 1, int(t[2])))          # only in-range, non-negative indices (C++ operator[])
     if op == "set": npv(x, 2, int(t[2]), float(q(t[3]))); return "ok"
@@ -205,7 +239,7 @@ def npv_step(R, t):
     return "UNKNOWN-OP"
 
 
-MUTATING = {"set", "iadd", "isub", "iaddl", "imuls", "idivs", "iadds", "isubs", "assign"}
+MUTATING = {"set", "iadd", "isub", "iaddl", "imuls", "idivs", "iadds", "isubs", "assign", "setslice", "isubl", "assignl", "setnp"}
 
 
 def result(R, res, operand=None):
@@ -234,7 +268,7 @@ def step(R, t, dyn=None):
     r = int(t[1]) if len(t) > 1 and op != "new" else None
     if op == "new":
         if dyn is not None:
-            return result(R, dyn([num(v) for v in qlist(t[3])]))
+            return result(R, dyn() if t[2] == "noarg" else dyn([num(v) for v in qlist(t[3])]))
         return result(R, construct(int(t[1]), t[2], qlist(t[3])))
     x = R[r]
     if op == "view":
@@ -245,6 +279,28 @@ def step(R, t, dyn=None):
         return result(R, type(x)(x) if is_fv(x) else np.array(x))
     if op == "copymeth":
         return result(R, x.copy())
+    if op == "copyargs":
+        return result(R, x.copy(*[num(v) for v in qlist(t[2])]))
+    if op == "float":
+        return "s:" + fr(float(x))
+    if op == "eqf":                      # one-entry vectors compare with plain numbers (implicitly_convertible< K, FV >)
+        return result(R, x == float(q(t[2])))
+    if op == "setslice":
+        vals = [num(v) for v in qlist(t[5])]
+        x[slice(optz(t[2]), optz(t[3]), optz(t[4]))] = vals[0] if len(vals) == 1 else vals
+        return "ok"
+    if op == "getnp":
+        return "s:" + fr(x[np.int64(int(t[2]))])
+    if op == "setnp":
+        x[np.int64(int(t[2]))] = num(q(t[3]))
+        return "ok"
+    if op == "ellipsis":
+        return result(R, x[...])
+    if op == "bufinfo":
+        mv = memoryview(x)
+        # (for one entry the exported stride is &self[1] - &self[0] = 0: irrelevant for a single element, not observed)
+        good = (mv.format, mv.ndim, mv.readonly, mv.itemsize) == ("d", 1, False, 8) and (mv.strides == (8,) or mv.shape[0] <= 1)
+        return ("i:%d" % mv.shape[0]) if good else "?buffer(%s,%s,%s,%s)" % (mv.format, mv.shape, mv.strides, mv.readonly)
     if op == "get":
         return "s:" + fr(x[int(t[2])])
     if op == "set":
@@ -268,8 +324,15 @@ def step(R, t, dyn=None):
         if op == "iadd": return "ok" if operator.iadd(x, y) is x else "!notinplace"
         if op == "isub": return "ok" if operator.isub(x, y) is x else "!notinplace"
         if op == "assign": return result(R, x.assign(y))
-    if op in ("addl", "raddl", "subl", "rsubl", "dotl", "eql", "iaddl"):
+    if op in ("addt", "eqt"):
+        tup = tuple(num(v) for v in qlist(t[2]))
+        return result(R, x + tup) if op == "addt" else result(R, x == tup)
+    if op in ("addl", "raddl", "subl", "rsubl", "dotl", "eql", "iaddl", "nel", "isubl", "assignl", "rdotl"):
         l = [num(v) for v in qlist(t[2])]
+        if op == "nel": return result(R, x != l)
+        if op == "isubl": return "ok" if operator.isub(x, l) is x else "!notinplace"
+        if op == "assignl": return result(R, x.assign(l))
+        if op == "rdotl": return result(R, l * x)
         if op == "addl": return result(R, x + l)
         if op == "raddl": return result(R, l + x)
         if op == "subl": return result(R, x - l)
@@ -300,6 +363,9 @@ def step(R, t, dyn=None):
         if op == "rsubi": return result(R, k - x, r)
     if op == "neg": return result(R, -x)
     if op == "pos": return result(R, +x, r)
+    if op == "norm1r": return "s:" + fr(x.one_norm_real)
+    if op == "norminfr": return "s:" + fr(x.infinity_norm_real)
+    if op == "div2": return result(R, x.__div__(float(q(t[2]))))
     if op == "norm1": return "s:" + fr(x.one_norm)
     if op == "norm22":
         n2, n = x.two_norm2, x.two_norm
@@ -341,7 +407,7 @@ def tv_case(line):
             return "!" + type(e).__name__
     tup = tv_elems(line)
     n = len(tup)
-    tv = dc.TupleVector(tup)
+    tv = dc.TupleVector(*tup) if line.startswith("tva") else dc.TupleVector(tup)
     out = ["len=%s" % guard(lambda: len(tv))]
     out += ["%d:%s" % (i, guard(lambda: tv_show(tv[i]))) for i in range(n)]
     out.append("get%d:%s" % (n, guard(lambda: tv_show(tv[n]))))
@@ -355,6 +421,23 @@ def tv_case(line):
         out.append("set%d:%s" % (i, guard(setit)))
     out.append("copy=" + ",".join(guard(lambda: tv_show(cp[i])) for i in range(n)))
     out.append("orig=" + ",".join(guard(lambda: tv_show(tv[i])) for i in range(n)))
+    out.append("neg:" + guard(lambda: tv_show(tv[-1])))
+    for i in range(n):                    # a value that does not cast to the element type
+        def setbad():
+            cp[i] = "x"
+            return "ok"
+        out.append("bad%d:%s" % (i, guard(setbad)))
+    cp.assign(tv)
+    out.append("assign=" + ",".join(guard(lambda: tv_show(cp[i])) for i in range(n)))
+    j = next((k for k, e in enumerate(tup) if is_fv(e)), None)
+    if j is None:
+        out.append("alias=-")
+    else:                                 # tv[j] refers to the stored element
+        def alias():
+            e = tv[j]
+            e[0] = 99.0
+            return tv_show(tv[j])
+        out.append("alias=" + guard(alias))
     return " | ".join(out)
 
 
